@@ -235,6 +235,8 @@ func (x *Exec) callFunc(fn *types.Func, recv Value, args []Value, st *State, e *
 			for _, g := range x.specConjuncts(ca.Clause.Expr, env) {
 				x.assert(st, "callsite", "at call to "+key+": "+g.label(ca.Clause.Label), g.t, ca.Clause.Tags, pos)
 			}
+			// the call site must be reachable, or the assertion above says nothing
+			x.assert(st, "vacuity", "call to "+key+" is reachable", tFalse, nil, pos)
 		}
 	}
 	fc := x.prog.Contracts.Funcs[key]
@@ -259,6 +261,11 @@ func (x *Exec) unknownCall(name string, sig *types.Signature, args []Value, st *
 			}
 		case PtrLocalV:
 			x.havocVar(st, v.Obj)
+		case LocV:
+			// &a[i], &s.f ...: the callee may overwrite that location
+			if t := x.info.TypeOf(v.Expr); t != nil {
+				x.assign(v.Expr, x.freshTyped(t, "written", st), st)
+			}
 		case *StructV:
 			vLeaves(v, func(t Term) {
 				if t.T.K == SRef {
@@ -268,13 +275,26 @@ func (x *Exec) unknownCall(name string, sig *types.Signature, args []Value, st *
 		}
 	}
 	if refArg && sig != nil {
-		// conservative: anything reachable might change, except declared-immutable and lock-owned state
-		for _, k := range sortedKeys(x.heapBase) {
-			if (strings.HasPrefix(k, "f:") || strings.HasPrefix(k, "m:") || strings.HasPrefix(k, "box:")) && !x.frameProtected(k) {
-				x.havocHeap(st, k)
-			}
+		// An external function may change what it can reach. State of the verified package's own (unexported) struct
+		// and map types is reachable only through a pointer of such a type among the arguments (assumption: externals
+		// do not retain pointers to package-private objects); everything else reachable is havoc'd.
+		reach := map[string]bool{}
+		for i := 0; i < sig.Params().Len(); i++ {
+			typeReach(sig.Params().At(i).Type(), reach, 0)
 		}
-		x.abstractions["call to "+name+" with pointer arguments: unprotected heap havoc'd"] = true
+		if sig.Recv() != nil {
+			typeReach(sig.Recv().Type(), reach, 0)
+		}
+		for _, k := range sortedKeys(x.heapBase) {
+			if !(strings.HasPrefix(k, "f:") || strings.HasPrefix(k, "m:") || strings.HasPrefix(k, "box:")) || x.frameProtected(k) {
+				continue
+			}
+			if x.privateKey(k) && !reach[heapKeyType(k)] {
+				continue
+			}
+			x.havocHeap(st, k)
+		}
+		x.abstractions["call to "+name+" with pointer arguments: the heap it can reach is havoc'd (package-private objects are assumed not retained by externals)"] = true
 	}
 	if sig == nil {
 		return nil
@@ -610,7 +630,7 @@ func (x *Exec) callContract(fc *FuncContract, fi *FuncInfo, sig *types.Signature
 	mw := x.mayWrite(fi, fc)
 	if mw["*"] {
 		for _, k := range sortedKeys(x.heapBase) {
-			if strings.HasPrefix(k, "f:") || strings.HasPrefix(k, "m:") || strings.HasPrefix(k, "box:") {
+			if (strings.HasPrefix(k, "f:") || strings.HasPrefix(k, "m:") || strings.HasPrefix(k, "box:")) && !x.prog.Contracts.Immutable[strings.TrimPrefix(k, "f:")] {
 				x.havocHeap(st, k)
 			}
 		}
@@ -651,13 +671,24 @@ func (x *Exec) callContract(fc *FuncContract, fi *FuncInfo, sig *types.Signature
 			if name != wp || i >= len(callExpr.Args) {
 				continue
 			}
-			se, ok := unparen(callExpr.Args[i]).(*ast.SliceExpr)
 			sl, isSl := args[i].(*StructV)
-			if !ok || !isSl {
-				x.unsupported(callExpr, "argument written by %s is not a slice of an addressable array", key)
+			if !isSl || !isSlice(sl) {
+				x.unsupported(callExpr, "argument written by %s is not a slice", key)
 			}
 			na := x.freshLike(sl.get("$arr"), "written")
-			x.assign(se.X, na, st)
+			switch ae := unparen(callExpr.Args[i]).(type) {
+			case *ast.SliceExpr:
+				if _, isArr := x.info.TypeOf(ae.X).Underlying().(*types.Array); isArr {
+					x.assign(ae.X, na, st) // the sliced array itself changes
+				} else {
+					x.unsupported(callExpr, "argument written by %s: reslice of a slice", key)
+				}
+			case *ast.Ident:
+				// a slice variable: under the value semantics used for slices the variable gets the new contents
+				x.assign(ae, sl.with("$arr", na), st)
+			default:
+				x.unsupported(callExpr, "argument written by %s is not an addressable slice", key)
+			}
 			args = append([]Value(nil), args...)
 			args[i] = sl.with("$arr", na)
 		}
@@ -1191,4 +1222,67 @@ func copyVars(m map[string]TV) map[string]TV {
 		n[k] = v
 	}
 	return n
+}
+
+
+// heapKeyType: "f:watch.path" -> "watch"; "m:K:V" -> the key itself; "box:T" -> T
+func heapKeyType(k string) string {
+	switch {
+	case strings.HasPrefix(k, "f:"):
+		t := k[2:]
+		if i := strings.LastIndex(t, "."); i >= 0 {
+			return t[:i]
+		}
+		return t
+	case strings.HasPrefix(k, "m:"):
+		return strings.TrimSuffix(strings.TrimSuffix(k, ".has"), ".val")
+	case strings.HasPrefix(k, "box:"):
+		return k[4:]
+	}
+	return k
+}
+
+// privateKey: heap of struct types declared in the package under verification
+// (their names carry no package qualifier), or of maps mentioning such a type.
+func (x *Exec) privateKey(k string) bool {
+	t := heapKeyType(k)
+	if strings.HasPrefix(k, "f:") {
+		return !strings.Contains(t, ".")
+	}
+	return strings.Contains(t, x.pkg.Types.Name()+".")
+}
+
+// typeReach collects the struct type names (as used in heap keys) reachable from t.
+func typeReach(t types.Type, out map[string]bool, depth int) {
+	if depth > 6 || t == nil {
+		return
+	}
+	switch u := t.(type) {
+	case *types.Named:
+		name := structName(u)
+		if out[name] {
+			return
+		}
+		if _, ok := u.Underlying().(*types.Struct); ok {
+			out[name] = true
+		}
+		typeReach(u.Underlying(), out, depth+1)
+	case *types.Pointer:
+		out["box:"+typeKey(u.Elem())] = true
+		typeReach(u.Elem(), out, depth+1)
+	case *types.Struct:
+		for i := 0; i < u.NumFields(); i++ {
+			typeReach(u.Field(i).Type(), out, depth+1)
+		}
+	case *types.Slice:
+		typeReach(u.Elem(), out, depth+1)
+	case *types.Array:
+		typeReach(u.Elem(), out, depth+1)
+	case *types.Map:
+		out["m:"+typeKey(u.Key())+":"+typeKey(u.Elem())] = true
+		typeReach(u.Key(), out, depth+1)
+		typeReach(u.Elem(), out, depth+1)
+	case *types.Chan:
+		typeReach(u.Elem(), out, depth+1)
+	}
 }
